@@ -37,8 +37,8 @@ func ruleTLSSuccessEffects(c *Ctx) {
 	c.obFollow("upgrade then reset()", f, isUp, []string{lReset}, nil, nil)
 	c.obFollow("upgrade then helo cleared", f, isUp, []string{`st:Conn.helo=""`}, nil, nil)
 	c.obFollow("upgrade then didAuth cleared", f, isUp, []string{"st:Conn.didAuth=false"}, nil, nil)
-	c.obFollowH("upgrade then Logout", f, isUp, []string{lLogout}, `(*Conn).Session(param0) != nil`)
-	c.obFollowH("upgrade then session cleared", f, isUp, []string{"st:Conn.session=nil"}, `(*Conn).Session(param0) != nil`)
+	c.obFollowH("upgrade then Logout", f, isUp, []string{lLogout}, `Conn.session != nil`)
+	c.obFollowH("upgrade then session cleared", f, isUp, []string{"st:Conn.session=nil"}, `Conn.session != nil`)
 	if g := c.A.Func("(*Conn).init"); g != nil {
 		m := s.Must(g)
 		R.Ob("(*Conn).init/fresh text conn", c.P.Pos(g.Pos()), m["st:Conn.text"] && m["call:textproto.NewConn"], "init() does not certainly replace the buffered text reader")
